@@ -15,6 +15,37 @@ import re
 from twisted.python import log as txlog
 
 
+class _PathShim(object):
+  def __init__(self, world):
+    self._w = world
+
+  def getmtime(self, path):
+    import errno
+    import os
+    w = self._w
+    k = int(round((w.r.seconds() - w.t0) / 10.0))
+    for name, lst in w.list_objs.items():
+      if lst.list_file == path and (k, name) in w.fs_faults and (k, name) not in w.fs_fired:
+        w.fs_fired.add((k, name))
+        w.ctx.fault('list_file_vanished_between_exists_and_getmtime')
+        raise OSError(errno.ENOENT, 'No such file or directory (injected)', path)
+    return os.path.getmtime(path)
+
+  def __getattr__(self, name):
+    import os
+    return getattr(os.path, name)
+
+
+class _OsShim(object):
+  def __init__(self, world):
+    self.path = _PathShim(world)
+    world.fs_fired = set()
+
+  def __getattr__(self, name):
+    import os
+    return getattr(os, name)
+
+
 def same_number(a, b):
   if a == b:
     if a == 0 and b == 0:
@@ -55,15 +86,26 @@ class IngestWorld(object):
     w.state.pipeline_processors[:] = [Recorder()]
     txlog.addObserver(self.log_observer)
     if w.settings.USE_WHITELIST:
+      import carbon.regexlist as rl
       from carbon.regexlist import WhiteList, BlackList
-      for name, lst in (('whitelist', WhiteList), ('blacklist', BlackList)):
-        real = lst.read_list
-
-        def wrapped(real=real, name=name, lst=lst):
-          real()
-          me.snapshot_list(name, lst)
-        lst.read_task.f = wrapped
+      self.list_objs = {'whitelist': WhiteList, 'blacklist': BlackList}
+      for name, lst in self.list_objs.items():
         self.snapshot_list(name, lst, initial=True)
+      # The reference follows the *documented* schedule (lists re-read every 10 s), on
+      # its own timer, so that a reload task that has died inside the daemon is noticed.
+      self.t0 = self.r.seconds()
+      self.r.callLater(10.0, self.ref_list_tick)
+      # file-system fault seam: the list file vanishes between exists() and getmtime()
+      self.fs_faults = set((int(k), n) for k, n in self.plan.get('fs_faults', []))
+      rl.os = _OsShim(self)
+
+  def ref_list_tick(self):
+    k = int(round((self.r.seconds() - self.t0) / 10.0))
+    for name, lst in self.list_objs.items():
+      if (k, name) in self.fs_faults and lst.list_file and os.path.exists(lst.list_file):
+        continue          # the file vanished while it was being re-read: nothing changes
+      self.snapshot_list(name, lst)
+    self.r.callLater(10.0, self.ref_list_tick)
 
   def snapshot_list(self, name, lst, initial=False):
     """Reference view of a list file as of a reload the timer really performed:
